@@ -63,4 +63,28 @@ CHECKS = {
         design_ref="DESIGN.md §4 C09",
         note="Model in vf/props/c09.py; select-from-repeat is not generated. Three genuine defects found here were fixed in /repo.",
     ),
+    "C10": dict(
+        technique="property-based testing with an exactly-once invariant plus a restated static/dynamic rule as reference model (defaults in instance vs setvalue placement/events; triggers as nested value-changed actions)",
+        text="Random forms with defaults drawn from static, dynamic and boundary classes on every question type inside and outside nested repeats, and trigger/target pairs; for every default exactly one of literal-in-instance or single first-load setvalue must hold, class and placement as prescribed; triggered calculations must be one nested action and no bind calculate.",
+        design_ref="DESIGN.md §4 C10",
+        note="Boundary texts (hyphens, brackets, bare paths) are only held to the exactly-once clause. One genuine defect fixed in /repo.",
+    ),
+    "C11": dict(
+        technique="property-based testing against a reference model of the form header, with unique setting values (leak detection), alias spellings and file-path vs in-memory delivery",
+        text="Random subsets of all settings columns with unique values under random aliases, with/without convert() arguments, dict or md/xlsx file delivery with odd stems; title, instance root name/id/version/attributes, submission, body class, namespaces, instanceID/instanceName are compared with the model and every value must appear at its own place only.",
+        design_ref="DESIGN.md §4 C11",
+        note="Smart-quote straightening in settings cells is tolerated either way.",
+    ),
+    "C19": dict(
+        technique="exhaustive enumeration of the 16 entity column presence patterns plus property-based random placement/naming, against the decision table restated from the entities spec",
+        text="All 16 patterns x 3 form shapes x save_to on/off are converted and compared with the table (accept/reject, exact attribute set on meta/entity, bind set with substituted expressions, uuid() setvalue, version attributes, namespace/version declaration); random forms add expressions with references, save_to anywhere, invalid names, extra rows/columns.",
+        design_ref="DESIGN.md §4 C19",
+        note="Exhaustive only over the 16 presence patterns; table restated in vf/props/c19.py.",
+    ),
+    "C20": dict(
+        technique="bounded-exhaustive enumeration (translatable header sets, near sheet names) plus property-based planting of row-level triggers; oracle = independent trigger model compared in both directions (missing and spurious warnings)",
+        text="Every set of up to 3/4 translatable headers x languages on each sheet, every sheet name within edit distance 2 of settings/entities on a small alphabet, and random forms with planted triggers; the parsed multiset of (kind, subject, row) must equal the model's; results must still satisfy C01/C02 predicates and output-neutral triggers must not change the XForm.",
+        design_ref="DESIGN.md §4 C20",
+        note="IANA validity is prescribed only for a fixed list of well-known codes and obvious non-codes; short language names are not prescribed.",
+    ),
 }
